@@ -264,3 +264,82 @@ def r_xfer_c08(repo, tier):
     if not ok:
         out.report(f.file, f.dqual, "copy of self._map", f.node.lineno, "MemoryZone.copy no longer copies every object of _map (filtered or missing comprehension)")
     return out
+
+
+# -----------------------------------------------------------------------------------------
+def _data_owner(v):
+    """the object whose bytes expression v is cut from: 'X' for X.val, X.data.val, X.getpart(..)[..], X.val.bytes(..);
+    ('param', name) for a bare name; None if unknown"""
+    e = v
+    while True:
+        if isinstance(e, ast.Subscript):
+            e = e.value
+        elif isinstance(e, ast.Call) and isinstance(e.func, ast.Attribute) and e.func.attr in ("getpart", "bytes", "to_bytes"):
+            e = e.func.value
+        else:
+            break
+    if isinstance(e, ast.Attribute) and e.attr == "val":
+        return norm(e.value)
+    if isinstance(e, ast.Name):
+        if v is e:
+            return ("param", e.id)
+        return e.id
+    return None
+
+
+def r_endtag(repo, tier):
+    out = RuleOut(
+        "R-ENDTAG",
+        "in the memory model a value and its endianness tag travel together: a datadiv/mo built from bytes cut out of an "
+        "object X carries X's own endian tag (X.endian / X.data.endian -> X), a datadiv/mo built from the caller's data "
+        "carries the caller's endian argument, and X.val.bytes(...) slices with X.endian",
+    )
+    m = repo.mod(MEM)
+    n_sites = 0
+    for f in m.functions.values():
+        params = set(f.params())
+        for c in ast.walk(f.node):
+            if not isinstance(c, ast.Call):
+                continue
+            fn = norm(c.func)
+            V = E = None
+            if fn == "datadiv" and len(c.args) >= 2:
+                V, E = c.args[0], c.args[1]
+            elif fn == "mo" and len(c.args) >= 3:
+                V, E = c.args[1], c.args[2]
+            elif isinstance(c.func, ast.Attribute) and c.func.attr == "bytes" and isinstance(c.func.value, ast.Attribute) and c.func.value.attr == "val":
+                V = c.func.value
+                for k in c.keywords:
+                    if k.arg == "endian":
+                        E = k.value
+                if E is None and len(c.args) >= 3:
+                    E = c.args[2]
+                if E is None:
+                    continue
+            else:
+                continue
+            n_sites += 1
+            owner = _data_owner(V)
+            et = norm(E)
+            key = "%s::%s" % (f.key, norm(c)[:80])
+            expect = None
+            if isinstance(owner, tuple):
+                # caller's data: tag must be a bare parameter too (not an attribute of some object)
+                ok = isinstance(E, ast.Name) and E.id in params
+                expect = "the caller's endian parameter"
+            elif owner is None:
+                out.undecide(f.file, f.dqual, norm(c)[:100], "data provenance not recognised")
+                continue
+            else:
+                cands = {owner + ".endian"}
+                if owner.endswith(".data"):
+                    cands.add(owner + ".endian")
+                ok = et in cands
+                expect = " or ".join(sorted(cands))
+            out.inst(key, {"site": "%s:%d" % (f.file, c.lineno), "call": norm(c)[:90], "data_from": owner if not isinstance(owner, tuple) else "parameter " + owner[1], "tag": et, "ok": ok})
+            if not ok:
+                out.report(f.file, f.dqual, norm(c)[:120], c.lineno, "bytes taken from %s are tagged with endianness %r instead of %s (sub-range reads of that part are sliced from the wrong end for mixed-endian histories)" % (owner if not isinstance(owner, tuple) else "the caller's data", et, expect))
+    out.stats["sites"] = n_sites
+    if n_sites < 10:
+        raise AnalysisError("R-ENDTAG: only %d (value, endian) construction sites found in memory.py (10 confirmed)" % n_sites)
+    return out
